@@ -796,6 +796,15 @@ class Summarizer:
                 if c.func.attr == 'extend' and isinstance(a0, (ast.ListComp, ast.GeneratorExp)):
                     self.expand_comp(recv, ast.ListComp(elt=a0.elt, generators=a0.generators), st, s)
                     return [st]
+                if c.func.attr == 'extend' and not isinstance(a0, (ast.List, ast.Tuple)):
+                    # X.extend(E)  ==  for e in E: X.append(e)
+                    cur = st.fork()
+                    k = self.nfor(cur)
+                    cur.ctx.append(f'for {self.text(a0, st)}')
+                    sym = ast.Name(id=f'${k}', ctx=ast.Load())
+                    call = ast.Call(func=ast.Attribute(value=clone(recv), attr='append', ctx=ast.Load()), args=[sym], keywords=[])
+                    self.emit('call', canon(call), cur, s, lhs=recv, rhs=sym, op='append')
+                    return [st]
                 if c.func.attr == 'update' and isinstance(a0, ast.DictComp):
                     self.expand_comp(recv, a0, st, s)
                     return [st]
